@@ -169,6 +169,12 @@ def finding_key(spec, a, obs):
         return "kFlowDecomp:accepted:bool-k-with-solution_weights_superset"
     cyc = cls in ci.IS_CYC
     st = [] if spec["origin"] == "node" else spec["starts"]; en = [] if spec["origin"] == "node" else spec["ends"]
+    if spec["origin"] == "node" and obs == "TypeError" and any(isinstance(it, list) for c in spec["cons"] for it in c) \
+            and spec["cons"] and len(spec["cons"][0]) and isinstance(spec["cons"][0][0], str):
+        return "NodeExpandedDiGraph._get_expanded_subpath_constraints_nodes:TypeError:unhashable-item"
+    if cls in ("kLeastAbsErrors", "kLeastAbsErrorsCycles", "kMinPathErrorCycles") and obs == "TypeError" \
+            and any(isinstance(it, list) for c in spec["cons"] for it in c):
+        return "error-models:TypeError:unhashable-constraint-item"
     names1 = [x for x in spec["nodes"] if isinstance(x, str) and len(x) == 1]
     if cyc and spec["origin"] != "node" and obs != "ValueError" and (
             (not a["has_source"] and not st and any(c in "source_" for c in names1)) or
@@ -228,7 +234,7 @@ def applicable(cls, v, spec):
         return False            # MinErrorFlow corrects arbitrary weights
     if v in ("neg", "noncons") and spec.get("ign_pct") is not None:
         return False            # a negative weight is the smallest one: the percentile would (legitimately) ignore it
-    if v in ("start", "end") and cls == "MinErrorFlow" and spec["origin"] == "edge" and not nx.is_directed_acyclic_graph(ci._graph(spec)):
+    if v in ("start", "end", "start_nearmiss", "end_nearmiss") and cls == "MinErrorFlow" and spec["origin"] == "edge" and not nx.is_directed_acyclic_graph(ci._graph(spec)):
         return False            # documented: additional starts/ends apply only to acyclic graphs
     if v in ("cons_itemint", "cons_item3", "cons_tuple") and spec["origin"] == "node" and not spec["cons"]:
         return True
@@ -353,8 +359,13 @@ def check_case(ctx, stream, cls, idx, viols, spec, a, req, out, r):
         if model_dom:
             ctx.report("generator / model mismatch: in_domain_%s is true on an input with violations %s" % (cls, viols), replay, concrete=False)
             return True
-    # (2) correspondence with the faithful model
-    if agrees(model_out, obs):
+    # (2) correspondence with the model
+    ahead = ctx.open_finding(key) if (failed and key) else None
+    if ahead is not None and ahead.get("model_is_repaired") and model_out == "ValueError":
+        # an OPEN finding whose entry says that Validate.v already describes the repaired behaviour: the implementation's
+        # deviation was reported above as an instance of the finding; there is nothing further to compare
+        ctx.count("E3_validate", "model_ahead_of_open_finding")
+    elif agrees(model_out, obs):
         ctx.count("E3_validate", "agreements")
     elif not failed and fixed_deviation(ctx, spec, a, model_out):
         # the model still describes a deviation whose known_findings entry is marked "fixed" (its repair has been applied to
